@@ -336,7 +336,12 @@ func (g *monRig) exec(s mStep) mObs {
 	// noise: events of another channel are ignored
 	if g.r.chance(25) {
 		codes := []datatransfer.EventCode{datatransfer.SendDataError, datatransfer.Accept, datatransfer.DataSent, datatransfer.FinishTransfer, datatransfer.Complete}
-		g.api.deliver(codes[g.r.intn(len(codes))], g.state(g.r.chance(30), g.other))
+		// the other channel may share the transfer id (ids are chosen by each channel's initiator) or one of the peers
+		others := []datatransfer.ChannelID{g.other,
+			{Initiator: peerOf(3), Responder: peerOf(1), ID: g.chid.ID},
+			{Initiator: peerOf(1), Responder: peerOf(3), ID: g.chid.ID},
+			{Initiator: peerOf(2), Responder: peerOf(1), ID: g.chid.ID}}
+		g.api.deliver(codes[g.r.intn(len(codes))], g.state(g.r.chance(30), others[g.r.intn(len(others))]))
 	}
 	always := func(o mObs) bool { return true }
 	cond := always
